@@ -19,8 +19,8 @@ check('C17', 'proof',
 check('C03', 'proof',
       'Coq theorem decode_wire_encode_partial: for every type tree (12 constructors, any depth/width), header size, typed value within the '
       'code ranges and tail, decoding the stated wire encoding returns exactly the value and the tail (plus argument-list lifting and the '
-      'prefix-consumption theorem); the full statement is kept visible and refuted by three vm_compute witnesses that are the known findings '
-      'C03-a/b/c. The model is tied to the code by generated-table instance theorems (SIMPLE_TYPES, struct formats, sizes) and a three-way '
+      'prefix-consumption theorem); the full statement is kept visible; after the repairs of C03-a/b the remaining refutation witness is the counted array of 255 and more '
+      'elements (known finding C03-c). The model is tied to the code by generated-table instance theorems (SIMPLE_TYPES, struct formats, sizes) and a three-way '
       'differential run: spec encoder -> {extracted decoder, library decoder} on generated types/values/malformed bytes, and every method and '
       'property payload of the real recordings decoded by the independent model with consumption compared.',
       'Trusted: Coq kernel, extraction + driver, translators/harness, CPython struct/BytesIO, lxml. Header sizes < 0 and int() corner syntax are outside the model.',
@@ -28,16 +28,20 @@ check('C03', 'proof',
 
 WORLD_NOTE = ('Trusted: Coq kernel, extraction + driver, translators/harness (generators, canonicaliser, the Python SPEC state of the generator), '
               'CPython/struct/BytesIO/lxml. The model mirrors player.py/entity.py by hand; the tie is the differential run (library vs extracted model) '
-              'on generated histories over generated definition sets and on the real recordings, plus generated packet-table instance theorems.')
+              'on generated histories over generated definition sets and on the real recordings, plus generated instance theorems for the packet tables AND the packet '
+              'layouts (tools/gen_packets.py translates the __init__ of every mapped packet class on every run; LayoutProofs.step_class_is_layout proves that the '
+              'model\'s step function is the table-driven one). DESIGN.md 10.8.')
 check('C02', 'proof',
       'Coq theorems: framing of any list of well-formed packets returns exactly those packets in order (frames_enc), the two truncation shapes '
       '(cut header / cut payload), termination on EVERY byte string (fuel never exhausted), unmapped packets and mapped-but-ignored packets are '
       'no-ops anywhere in both modes. Tie: generated packet tables proved equal to the model tables, delivered-packet traces of PlayerBase.play '
       'vs the extracted framer on generated streams (all cut offsets, oversized lengths, extreme ids/times), no-op insertion into synthetic '
-      'and real streams, and histories with handler payloads shorter than their struct.', WORLD_NOTE,
+      'and real streams, and histories with handler payloads shorter than their struct; deliveries repeated with debug logging on; the module-level tables '
+      'must survive the construction of players; a sample of the framer cases is re-evaluated by vm_compute inside Coq (extraction cross-check).', WORLD_NOTE,
       'Coq proof over the framing/play model + generated instance theorems + differential run', 'DESIGN.md §6 C02')
 check('C05', 'proof',
-      'Coq theorems: after ANY event history the entity table is the last-writer-wins fold (refinement to an id -> (type, property -> value) spec, '
+      'Coq theorems: from the BYTES of the packet stream (framing + table dispatch + step: stream_refines_spec) and after ANY history of base-player, cell-player, '
+      'creation and update packets the entity table is the last-writer-wins fold (refinement to an id -> (type, property -> value) spec, '
       'pointwise, no axioms), events never affect other ids, a decodable property-update packet IS the update event at byte level, the base-player '
       'id is reported as the player. Tie: three-way run (library / extracted model / SPEC state kept with plain dicts) over generated definition '
       'sets and histories in all four dialects, and the final entity state of real recordings against the independent model.', WORLD_NOTE,
@@ -45,19 +49,22 @@ check('C05', 'proof',
 check('C06', 'proof',
       'Coq theorems: the bit path with bits_required widths is walked back to the same path and leaf at any depth, update_at replaces exactly the '
       'addressed sub-value and nothing beside the path, a nested packet changes only one client property of one entity, Python slice assignment '
-      'characterised for all (i,j); the 1-byte signed payload size is proved to refuse payloads >= 128 bytes (known finding C06-a). Tie: sweep '
+      'characterised for all (i,j); end to end from the payload bytes (element set, dict field, slice) at any depth, and nested_history: ANY sequence of nested '
+      'payloads gives the fold of the ordinary list/dict updates. Tie: sweep '
       'over list sizes 0..40 at depth 1-3 with EVERY (i,j,k) slice triple for small lists, the state after each single operation compared with '
       'ordinary Python list/dict operations, plus generated histories and all nested packets of real recordings vs the independent model.', WORLD_NOTE,
       'Coq proof of the path/leaf/slice model + exhaustive small-list sweep + differential run', 'DESIGN.md §6 C06')
 check('C07', 'proof',
-      'Coq theorems: an unsubscribed method call is a no-op and is not decoded for ANY payload bytes; with n callbacks the trace gains exactly n '
+      'Coq theorems: the callback trace after ANY history is the concatenation, in stream order, of what each packet contributed (nothing recorded is ever removed '
+      'or reordered); an unsubscribed method call is a no-op and is not decoded for ANY payload bytes; with n callbacks the trace gains exactly n '
       'entries with positional/keyword split; property subscribers get the new value after assignment; the "every registered callback is invoked" '
       'clause is stated in full and REFUTED for the faithful registration model (known finding C07-a). Tie: callback traces (key, id, args, kwargs) '
       'of recording subscribers registered through the public API vs the extracted model over generated histories x generated registrations, and '
       'every method call / property / nested notification of real recordings with everything subscribed; direct clause tests for C07-a..d.', WORLD_NOTE,
       'Coq proof of the dispatch model + differential callback traces', 'DESIGN.md §6 C07')
 check('C08', 'proof',
-      'Coq theorems (for the repaired code): a position packet sets exactly the four pose components of the addressed entity, an own-player packet '
+      'Coq theorems (for the repaired code): pose_history - after ANY sequence of position / own-player position packets every pose is the last-writer-wins value and '
+      'nothing else changes; a position packet sets exactly the four pose components of the addressed entity, an own-player packet '
       'without a second entity sets the first from the packet, with a second entity copies its current pose, unknown ids are ignored, pose updates '
       'never touch other ids or any property, new entities start at the defaults. Tie: three-way run on histories with several entities of equal '
       'and different types and arbitrary float bit patterns; poses of real recordings vs the independent model.', WORLD_NOTE,
@@ -115,10 +122,9 @@ check('C10', 'proof',
       'exhaustive generated instance theorem (vm_compute) + Coq binding model + cross-check with inspect', 'DESIGN.md §6 C10')
 
 check('C16', 'proof',
-      'Coq theorems: on every writable type tree with distinct field names, for every typed value outside three stated holes, the model of the '
+      'Coq theorems (for the repaired writers, fixed findings C16-a/b/c/d): on every writable type tree with distinct field names, for EVERY typed value, the model of the '
       'library\'s writers produces exactly the statement\'s wire encoding, hence (with the C03 theorem) the library\'s reader returns exactly the '
-      'value and what followed; out-of-range integers, blobs >= 65536 bytes and wrong argument counts are refused; the full statement is refuted '
-      'by three witnesses (None for an AllowNone dict, non-ASCII text, wrong-length fixed array = known findings C16-a/b/c). Tie: generated '
+      'value and what followed; out-of-range integers, wrong argument counts and wrong-length fixed arrays are refused (None for an AllowNone dict and non-ASCII text round-trip). Tie: generated '
       'struct-format tables proved equal to the model\'s; bytes written by the library vs the extracted writer model and write->read round trips '
       'on generated types/values incl. the holes, unrepresentable values and method argument lists.',
       'Trusted: Coq kernel, extraction + driver, harness; CPython struct.pack range checks and float32 rounding (only float32-representable values are generated).',
